@@ -24,7 +24,53 @@ var clockBase = time.Date(2026, 10, 4, 12, 0, 0, 0, time.UTC)
 var clockNs int64
 
 //go:norace
-func resetClock() { clockNs = 0 }
+func resetClock() { clockNs, stalled, stallsLeft, stallGap = 0, 0, maxStalls, 0 }
+
+// A stalled or slow process: while the library has timers armed, a scheduling point
+// may cost simulated time (a step of the table above) in a run that varies the
+// clock - at most 64 times and a minute in total per run, so that a result which
+// depends on finishing before a timeout of seconds shows, and an hour-long safety
+// timeout never fires. One tape decision says how long the stall is and how many
+// scheduling points later the next one may come. Without pending timers nothing is
+// drawn (the tapes of runs without timers are what they were).
+const maxStall = int64(time.Minute)
+const maxStalls = 64
+
+var stallGaps = [...]int{1, 3, 10, 30, 100, 1000}
+
+var stalled int64
+var stallsLeft, stallGap int
+
+//go:norace
+func stall() {
+	if stallsLeft == 0 {
+		return
+	}
+	if stallGap > 0 {
+		stallGap--
+		return
+	}
+	stallsLeft--
+	nS, nG := len(clockSteps), len(stallGaps)
+	v := 0
+	if !R.tape.S[KFault].Replay && R.cfg.ClockVaryPct > 0 {
+		g := int(R.tape.rawRand(KFault) % uint64(nG))
+		sz := 0
+		if int(R.tape.rawRand(KFault)%100) < 20+R.cfg.ClockVaryPct {
+			sz = 1 + int(R.tape.rawRand(KFault)%uint64(nS-1))
+		}
+		v = g*nS + sz
+	}
+	v = R.tape.chooseWith(KFault, nS*nG, v)
+	stallGap = stallGaps[v/nS]
+	d := int64(clockSteps[v%nS])
+	if v%nS == 0 || d == 0 || stalled+d > maxStall {
+		return
+	}
+	stalled += d
+	clockNs += d
+	R.st.Stalls++
+}
 
 //go:norace
 func clockRead(extra time.Duration) int64 {
